@@ -383,6 +383,7 @@ func runUpdate(s *c20Stores, op string, crashStep int, log *stepLog) (err error,
 		}
 		if crashStep > 0 && n == crashStep {
 			crashed = true
+			vos.Dead = true // deferred calls of the dying goroutine still run: they must not reach the disk
 			runtime.Goexit()
 		}
 	}
@@ -392,6 +393,7 @@ func runUpdate(s *c20Stores, op string, crashStep int, log *stepLog) (err error,
 	}()
 	<-done
 	vos.Hook = nil
+	vos.Dead = false
 	return err, crashed
 }
 
